@@ -610,6 +610,8 @@ def gen_geff(rng, mode):
     if mode == "g_dup_ids":
         i, j = rng.sample(range(n), 2)
         ids[j] = ids[i]
+        if rng.random() < 0.45:   # roots only: the duplicate must be rejected although there is no edge to validate
+            edges = []
     if mode == "g_unknown_node":
         edges.append(rng.choice([[71, ids[0]], [ids[0], 71]]))
     if mode == "g_self_edge":
